@@ -42,6 +42,14 @@ func genC09Positionless(seed uint64, run int) *Plan {
 	for k := 1 + r.IntN(n+1); k > 0; k-- {
 		c.Ops = append(c.Ops, Op{K: pick(r, "next", "next", "trynext"), N: 99, Ctx: "deadline", Ms: pick(r, int64(50), 1500, 4000)})
 	}
+	if r.IntN(2) == 0 {
+		// come back later from the time (or token) of an event seen early: by then retention may have removed it
+		c.Ops = append(c.Ops, Op{K: "sleep", Ms: int64(1000 + r.IntN(n*1500))})
+		c.Ops = append(c.Ops, Op{K: "watch", Scope: pick(r, "client", "db", "coll"), DB: "db", C: "c0", Start: pick(r, "at", "at", "resume", "after")})
+		for k := 1 + r.IntN(n+1); k > 0; k-- {
+			c.Ops = append(c.Ops, Op{K: pick(r, "next", "trynext"), N: 99, Ctx: "deadline", Ms: pick(r, int64(50), 1500)})
+		}
+	}
 	p.Tasks = []TaskPlan{w, c}
 	if r.IntN(3) > 0 {
 		// the commit that would trim for the first time (or one next to it) fails in the store
@@ -132,9 +140,9 @@ func genC09(seed uint64, run int, tier string) *Plan {
 				tp.Ops = append(tp.Ops, Op{K: "next", N: 99, Ctx: "cancel"})
 			case k < 14:
 				tp.Ops = append(tp.Ops, Op{K: "closeStream", N: 99})
-				tp.Ops = append(tp.Ops, watch(pick(r, "", "resume", "after")))
+				tp.Ops = append(tp.Ops, watch(pick(r, "", "resume", "after", "at")))
 			case k < 16:
-				tp.Ops = append(tp.Ops, watch(pick(r, "resume", "after", "")))
+				tp.Ops = append(tp.Ops, watch(pick(r, "resume", "after", "at", "")))
 			case k < 17:
 				tp.Ops = append(tp.Ops, Op{K: "closeOther", N: r.IntN(8)})
 			default:
@@ -378,6 +386,14 @@ func rawTok(r bson.Raw) string {
 
 // startRange returns the admissible global start positions of a stream.
 func startRange(st *streamState, log []*gEvent, evCount []int) (lo, hi int, ok bool) {
+	if st.startAt {
+		// event ids (= cluster times) are strictly increasing: the first event at or after the time is the event itself
+		i := indexOfID(log, string(model.Bytes(st.startEv)))
+		if i < 0 {
+			return 0, 0, false
+		}
+		return i, i, true
+	}
 	if st.startTok != nil {
 		// the position is the delivered event the token was taken from
 		i := indexOfID(log, string(model.Bytes(st.startEv)))
@@ -518,6 +534,17 @@ func c09Call(e *Env, a *actor, c *CallRec, log *[]*gEvent, evCount []int) {
 					}
 				}
 				e.probe("resume-after-trim-refused")
+				return
+			}
+			if cls == "lost-position" && st.startAt {
+				// acceptable only if the event the start time was taken from has been discarded
+				id := string(model.Bytes(st.startEv))
+				for _, ev := range oplogOf(e.engine.Catalog()) {
+					if string(model.Bytes(ev)) == id {
+						e.violate(violation("C09", "start-at-refused", "", "starting at the cluster time of a delivered event that is still in the change log failed with a lost position"))
+					}
+				}
+				e.probe("start-at-after-trim-refused")
 				return
 			}
 			e.violate(violation("C09", "watch-failed", classKey(c.Err), fmt.Sprintf("%s failed: %v", opStr(c.Op), c.Err)))
